@@ -379,7 +379,7 @@ def run_property(prop, modname, tier, seed, level="exploration", min_nontrivial=
     # command-line interpreter runs a file): every `script_every`-th shard is run again that way;
     # VERIF_PIPELINE=plain|script|both overrides (both = every shard in both pipelines)
     forced = os.environ.get("VERIF_PIPELINE", "")
-    every = plan.get("script_every", getattr(mod, "SCRIPT_EVERY", {}).get(tier, 3 if tier == "quick" else 1))
+    every = plan.get("script_every", getattr(mod, "SCRIPT_EVERY", {}).get(tier, 3 if tier == "quick" else 2))
     tasks = [(modname, ctx, i, n, "plain") for i in range(n)]
     if forced == "script":
         tasks = [(modname, ctx, i, n, "script") for i in range(n)]
